@@ -11,6 +11,7 @@ import VotelibProofs.Props.C01
 import VotelibProofs.Lemmas.MonoScorers
 import VotelibProofs.Lemmas.MonoAdditive
 import VotelibProofs.Lemmas.MonoBucklin
+import VotelibProofs.Lemmas.MonoMinimax
 namespace VL.C17
 open VL HACfg Gen.Divisor VL.Convert VL.Mono
 
@@ -390,7 +391,7 @@ theorem bucklin_monotone_lift (p : RProfile) (w : Cand) (i : Nat) (b : Ballot)
     have := (lift_cum j w i b hnd hok y hy).1
     rw [hT] at hlt; linarith
   · intro j hlt
-    obtain ⟨y, hy⟩ : ∃ y, y ≠ w := ⟨w + 1, by omega⟩
+    obtain ⟨y, hy⟩ : ∃ y : Cand, y ≠ w := ⟨w + 1, Nat.succ_ne_self w⟩
     have := (lift_cum j w i b hnd hok y hy).2
     rw [hT]; linarith
   · intro j y hy _ hlt
@@ -430,5 +431,46 @@ theorem bucklin_monotone_bullet (p : RProfile) (w : Cand) (hpos : ∀ bw ∈ p, 
   · apply maxLen_le
     intro x hx
     exact le_maxLen ((mem_dkeys_addTo p _ 1 x).mpr (Or.inl hx))
+
+/-! ### Copeland and minimax, on the level of the pairwise matrix
+
+  `Raised v v' w`: compared with `v`, in `v'` only the entries `d(w, ·)` rise and `d(·, w)` fall (what moving `w`
+  upwards on ballots, or a bullet ballot for `w`, does to the matrix).  `WF` = a dict of non-negative counts without
+  self-pairs; no candidate is new in `v'`. -/
+
+open VL.Condorcet in
+/-- **Copeland.**  If `w` is the strict Copeland maximum of `v` (the first-order one-seat result is `[w]`), then for
+    every `Raised` matrix `v'` over the same candidates the Copeland result — with or without second-order
+    tie-breaking — is `[w]`. -/
+theorem copeland_monotone (v v' : Pairwise) (w : Cand) (secondOrder : Bool) (hwf : Condorcet.WF v) (hwf' : Condorcet.WF v')
+    (hr : Raised v v' w) (hc : ∀ c ∈ candidates v', c ∈ candidates v) (hw : w ∈ candidates v')
+    (h : copeland false v 1 = [Slot.cand w]) : copeland secondOrder v' 1 = [Slot.cand w] := by
+  have h0 : getNBest (seededScores v (copelandScoresRaw (pairwiseWins v false))) 1 = [Slot.cand w] := by
+    unfold copeland at h; simpa using h
+  apply copeland_no_tie
+  obtain ⟨h1, h2⟩ := cscore_mono hwf hwf' hr
+  apply additive_sole _ _ (by rw [keys_seeded]; exact nodup_candidates v) (by rw [keys_seeded]; exact nodup_candidates v') w
+    ?_ ?_ ?_ h0
+  · intro c hcc; rw [keys_seeded] at hcc ⊢; exact hc c hcc
+  · rw [keys_seeded]; exact hw
+  · intro c hcc hcw
+    rw [keys_seeded] at hcc
+    rw [toFun_seeded v' c hcc, toFun_seeded v c (hc c hcc), toFun_seeded v' w hw, toFun_seeded v w (hc w hw)]
+    have := h1 c hcw
+    linarith
+
+open VL.Condorcet in
+/-- **Minimax** (winning votes, margins, pairwise opposition).  If `w`'s worst pairwise defeat in `v` is strictly
+    smaller than everybody else's (the one-seat result is `[w]`), the same holds in every `Raised` matrix `v'` over the
+    same candidates.  (`Positive`: stored counts are positive, as in every matrix built from ballots.) -/
+theorem minimax_monotone (sc : Condorcet.Scorer) (v v' : Pairwise) (w : Cand) (hwf : Condorcet.WF v) (hwf' : Condorcet.WF v')
+    (hp : Positive v) (hp' : Positive v') (hr : Raised v v' w)
+    (hc : ∀ c ∈ candidates v', c ∈ candidates v) (hw : w ∈ candidates v')
+    (h : minimax sc v 1 = [Slot.cand w]) : minimax sc v' 1 = [Slot.cand w] := by
+  rw [minimax_sole sc v hwf.1] at h
+  rw [minimax_sole sc v' hwf'.1]
+  refine ⟨hw, fun c hcc hcw => ?_⟩
+  exact wlt_of_wle_of_wlt_of_wle (worst_w_le sc hwf hwf' hp hp' hr) (h.2 c (hc c hcc) hcw)
+    (worst_y_ge sc hwf hwf' hp hp' hr hcw)
 
 end VL.C17
